@@ -25,6 +25,26 @@ from ..vloop import VLoop, run_virtual
 from .stack import Stack, patch_server_clocks
 
 TERMINAL = ("completed", "failed", "cancelled")
+_DB_SEQ = [0]
+
+
+def make_store(kind: str) -> tuple[Any, str | None]:
+    """a fresh real store; sqlite files go to tmpfs when there is one (every store call opens a connection and commits)"""
+    import os
+
+    if kind != "sqlite":
+        return Stack.make_store(kind)
+    d = "/dev/shm" if os.path.isdir("/dev/shm") and os.access("/dev/shm", os.W_OK) else None
+    if d is None:
+        return Stack.make_store(kind)
+    _DB_SEQ[0] += 1
+    path = os.path.join(d, f"verif_c15_{os.getpid()}_{_DB_SEQ[0]}.db")
+    for suf in ("", "-wal", "-shm", "-journal"):
+        try:
+            os.unlink(path + suf)
+        except OSError:
+            pass
+    return Stack.make_store(kind, db_path=path)
 NOSTATE_TEXT = "handler crashed before persisting any state; cannot resume"
 
 
@@ -235,7 +255,7 @@ class OpBench:
 
         patch_server_clocks()
         self.cleanup()
-        base, self.db_path = Stack.make_store(self.store_kind)
+        base, self.db_path = make_store(self.store_kind)
         self.stack_store = base
         self.fs = FaultStore(base)
         self.stub = _make_stub_runtime(self)
@@ -312,7 +332,7 @@ class OpBench:
             c = "none"
         else:
             c = "now" if h.completed_at == h.updated_at else "old"
-        res = "_" if h.result is None else str(getattr(h.result, "uid", "?"))
+        res = "_" if h.result is None else str(getattr(h.result, "uid", 0))  # IdleReleasedEvent carries no uid: token 0
         return f"run={run} st={h.status} err={canon_error(h.error)} res={res} c={c} idle={1 if h.idle_since is not None else 0}"
 
     def _kind_of(self, type_name: str, ev: Any = None) -> str:
@@ -729,7 +749,7 @@ def run_case(case: dict) -> CaseResult:
             res.notes.append(f"external op failed: {type(e).__name__}")
 
     async def main(loop: VLoop) -> None:
-        base, dbp = Stack.make_store(case.get("store", "memory"))
+        base, dbp = make_store(case.get("store", "memory"))
         fs = FaultStore(base)
         fs.plan = _plan(case.get("fault"))
         st = Stack.build(case.get("store", "memory"), idle_timeout=idle_timeout, persistence_backoff=backoff, store=fs, db_path=dbp)
